@@ -35,8 +35,12 @@ TEXT_POOL = ["1234", "-17", "0", "true", "FALSE", "TRUE", "false", "hello", "Tes
              # a blank before the closing brace
              # integers "in the usual form" are decimal whatever they start with (atoi): leading zeros, a 0x prefix, an explicit sign
              "010", "0100", "09", "-012", "0x10", "+5", "0007", "00", "0129",
+             # doubles "in any commonly used notation": no digit before the point, none after it, signs, upper-case exponent with sign
+             ".5", "-.25", "+.75", ".5e1", "-.125e+2", "5.", "1E2", "2.5E+1", "+3", "12.5", ".0", "00.5", "1e0", "-4.",
              "{10 5}", "{alpha be c}", "{12345 c2 1 }", "{ab\tcdef\tg}", "{1 22 333 22 1}", "{longest-first x}"]
-DOUBLES = {"1234": 1234.0, "-17": -17.0, "0": 0.0, "3.5": 3.5, "0.25": 0.25, "1e3": 1000.0, "-2.5e-1": -0.25, "2147483647": 2147483647.0, "7": 7.0}
+DOUBLES = {"1234": 1234.0, "-17": -17.0, "0": 0.0, "3.5": 3.5, "0.25": 0.25, "1e3": 1000.0, "-2.5e-1": -0.25, "2147483647": 2147483647.0, "7": 7.0,
+           ".5": 0.5, "-.25": -0.25, "+.75": 0.75, ".5e1": 5.0, "-.125e+2": -12.5, "5.": 5.0, "1E2": 100.0, "2.5E+1": 25.0, "+3": 3.0, "12.5": 12.5, ".0": 0.0, "00.5": 0.5,
+           "1e0": 1.0, "-4.": -4.0, "010": 10.0, "0100": 100.0, "09": 9.0, "-012": -12.0, "+5": 5.0, "0007": 7.0, "00": 0.0, "0129": 129.0}
 
 
 def render_kv(rng, key, text):
